@@ -450,12 +450,21 @@ def k_c10_interval(f: Failure) -> bool:
 def check_c09(ctx: Ctx, job):
     """kill worker `victim` at its `at`-th switch point; consumer iterates one epoch."""
     cfg, seed, victim, at = job["cfg"], job["seed"], job["victim"], job["at"]
-    ref, _, _ = run_stream(cfg, "random", seed + 5, 1)
-    state = {"n": 0, "killed_at_clock": None, "phase": None}
+    warm = 1 if job.get("second_epoch") else 0  # persistent workers: an uninterrupted first epoch, the kill happens in / before the second
+    ref_all, _, _ = run_stream(cfg, "random", seed + 5, 1 + warm)
+    if warm:
+        cut = next(i for i, o in enumerate(ref_all) if o[0] != "item") + 1
+        ref0, ref = ref_all[:cut], ref_all[cut:]
+        if ref0[-1][0] != "stop" or not ref:
+            ctx.count("ko_c09:second_epoch_skipped")
+            return
+    else:
+        ref0, ref = [], ref_all
+    state = {"n": 0, "killed_at_clock": None, "phase": None, "armed": not warm}
     pre_sd = {}
     with vsched.Session(seed, adversarial=job.get("adversarial", False)) as s:
         def plan(sch, vt):
-            if not vt.is_proc:
+            if not vt.is_proc or not state["armed"]:
                 return False
             procs = [v for v in sch.vts if v.is_proc]
             if procs.index(vt) != victim % max(len(procs), 1):
@@ -472,6 +481,12 @@ def check_c09(ctx: Ctx, job):
         got: List[Any] = []
         lat = None
         try:
+            if warm:
+                first = sdl.run_epochs(loader, 1, s)[0]
+                if first != ref0 and cfg.get("in_order") is not False:
+                    ctx.fail("C09:first_epoch_differs", job, f"uninterrupted first epoch differs between two runs: {first[:3]} vs {ref0[:3]}")
+                    return
+                state["armed"] = True
             s.begin_op()
             it = iter(loader)
             while len(got) < len(ref) + 3:
@@ -510,7 +525,7 @@ def check_c09(ctx: Ctx, job):
     if last[0] in ("error", "error-at-iter") and killed and lat is not None and lat > 60.0:
         ctx.fail("C09:slow_detection", job, f"death reported only after {lat} virtual seconds")
         return
-    if killed and "sd" in pre_sd:
+    if killed and "sd" in pre_sd and not warm:
         want = ref[pre_sd["p"]:]
         got2 = C01.resumed_run(cfg, pre_sd["sd"], seed + 3, 9, len(want))
         if got2 != want:
@@ -527,10 +542,11 @@ def gen_c09(ctx: Ctx, n: int):
             cfg["pf"] = ctx.rng.choice([1, 2])
             if sdl.is_iter(cfg):
                 cfg["sizes"] = (cfg["sizes"] * 4)[: cfg["W"]]
-        cfg["persistent"] = False
+        second = ctx.rng.random() < 0.3
+        cfg["persistent"] = second
         jobs.append({"cfg": cfg, "seed": ctx.rng.randrange(1 << 30), "victim": ctx.rng.randrange(cfg["W"]),
-                     "at": ctx.rng.choice([1, 2, 3, 4, 5, 6, 8, 10, 13, 17, 22, 30]), "sd_at": ctx.rng.choice([0, 1, 2, 3]),
-                     "adversarial": ctx.rng.random() < 0.3})
+                     "at": ctx.rng.choice([1, 2, 3, 4, 5, 6, 8, 10, 13, 17, 22, 30] if not second else [1, 1, 2, 2, 3, 4, 5, 6, 8, 10, 13]),
+                     "sd_at": ctx.rng.choice([0, 1, 2, 3]), "adversarial": ctx.rng.random() < 0.3, "second_epoch": second})
     return jobs
 
 
